@@ -157,13 +157,60 @@ def run(chk):
     chk.section("rotation-compiler", lambda: t2(chk))
     chk.section("composite-gates", lambda: t3(chk))
     chk.section("angles", lambda: t4(chk))
+    for i in range(NCH_B):
+        chk.section(f"bounded-{i}", lambda i=i: t5(chk, i))
     chk.expected_min_obligations = 30
     chk.assumptions += [
         "ASSUMED table of tket operation semantics (H, X, Y, Z, S, T, V and adjoints, CX, CY, CZ, Toffoli, Rz, Rx, Ry, CRz in half-turns; qsystem PhasedX, ZZPhase, Rz in radians), first qubit argument most significant",
         "the emulator / hardware realises those operations (external)",
         "sympy's exact simplification decides the matrix identities",
     ]
-    chk.not_covered += ["emulated states (the emulator cannot be driven with qubits in this sandbox)", "measurement, reset and project_z as projective operations (bound ops only: MeasureFree, Reset, Measure+…)"]
+    chk.not_covered += ["measure() on the emulator (its tket op cannot be lowered in this sandbox): bound op only", "the qsystem native gates on the emulator (the module does not import under the shim): bindings and wrappers only",
+                        "circuits of more than one library gate on the emulator beyond the preparation layer (composition is matrix multiplication)"]
+
+
+NCH_B = 8
+ANGLES = [0.25, -0.6, 1.0, 2.3]
+
+
+def t5(chk, i):
+    """BOUNDED: emulated state == documented matrix applied to the listed qubits (C20_oracle.py)"""
+    import json
+    from pyvc.report import run_replay
+    from .C20_oracle import ORACLE, DRIVER
+    e = mk_engine(chk)
+    m = e.module(QM)
+    gates = []
+    for node in m.tree.body:
+        if not isinstance(node, ast.FunctionDef):
+            continue
+        doc = ast.get_docstring(node) or ""
+        try:
+            mat = latex_matrix(doc)
+        except Exception:  # noqa
+            mat = None
+        if mat is None:
+            continue
+        params = [a.arg for a in node.args.args]
+        angs = [p_ for p_ in params if p_.startswith("angle")]
+        nq = len(params) - len(angs)
+        if 2 ** nq != mat.shape[0] or len(angs) > 1:
+            continue
+        for val in (ANGLES if angs else [None]):
+            num = mat.subs(th, val * sp.pi) if val is not None else mat
+            gates.append({"name": node.name, "nq": nq, "angles": [val] if val is not None else [],
+                          "matrix": [[[float(sp.re(sp.N(c, 30))), float(sp.im(sp.N(c, 30)))] for c in num.row(r)] for r in range(num.rows)]})
+    chk.record(f"bounded[{i}/{NCH_B}]:gate-functions-with-a-documented-matrix", len({g["name"] for g in gates}) >= 18, str(sorted({g["name"] for g in gates})), kind="reachability")
+    res = run_replay(ORACLE + DRIVER, {"gates": gates, "chunk": i, "nchunks": NCH_B}, chk.repo, timeout=6000)
+    if "evaluations" not in res:
+        chk.undecided(f"bounded[{i}/{NCH_B}]:circuits", "oracle run failed: " + json.dumps(res)[:800])
+        return
+    w = res.get("witness")
+    o = chk.bounded_result(f"bounded[{i}/{NCH_B}]:emulated-state==documented-matrix-on-the-listed-qubits(up-to-global-phase; slice {i} of {NCH_B})", not res.get("violates"), res["evaluations"],
+                           detail=res.get("detail") or f"{res['evaluations']} circuits (gate x qubit order x angle x input state; reset / project_z as projections) agree with the documented matrices", witness=w,
+                           func=f"{QM}:std.quantum")
+    if w:
+        o.replay.update({"script": ORACLE + DRIVER, "input": {"gates": [g for g in gates if g["name"] == w["gate"] and g["angles"] == w["angles"]] or gates[:1], "chunk": 0, "nchunks": 1}})
 
 
 def t1(chk):
@@ -222,10 +269,19 @@ def t2(chk):
                 if op[0] == "from_halfturns_unchecked":
                     return [("rotation", wires[0])]
                 return [("q'", k) for k in range(len(wires) - 1)]
-            self_ = SObj(RC, {"opname": opname, "builder": SObj(ClassVal("B", builtin=True), {"add_op": Builtin("add_op", add_op)}), "ctx": "CTX"})
+            bfields = {"add_op": Builtin("add_op", add_op)}
+            for extra in ("load", "add_const", "add", "call", "load_function", "add_load_const"):
+                # any other way of putting a node into the graph is recorded as an op as well
+                bfields[extra] = Builtin(extra, lambda *a, extra=extra, **k: (log.append(((extra,) + tuple(map(str, a)), ())), [("wire-of", extra)])[1][0])
+            self_ = SObj(RC, {"opname": opname, "builder": SObj(ClassVal("B", builtin=True), bfields), "ctx": "CTX"})
             qs = [("q", k) for k in range(nq)]
             g = it.ctx.mod_globals(m)
-            g["ops"] = SObj(ClassVal("opsns", builtin=True), {"UnpackTuple": Builtin("UnpackTuple", lambda tys: ("UnpackTuple",))})
+            opsf = {"UnpackTuple": Builtin("UnpackTuple", lambda tys: ("UnpackTuple",))}
+            for extra in ("ExtOp", "Const", "Noop", "Tag", "MakeTuple", "Custom"):
+                opsf[extra] = Builtin(extra, lambda *a, extra=extra, **k: (extra,) + tuple(map(str, a)))
+            g["ops"] = SObj(ClassVal("opsns", builtin=True), opsf)
+            g["FLOAT_OPS_EXTENSION"] = SObj(ClassVal("Ext", builtin=True), {"get_op": Builtin("get_op", lambda n: ("float-op", n))})
+            g["FloatVal"] = Builtin("FloatVal", lambda v: ("FloatVal", v))
             g["from_halfturns_unchecked"] = Builtin("fhu", lambda: ("from_halfturns_unchecked",))
             g["ht"] = SObj(ClassVal("ht", builtin=True), {"Qubit": "Q", "FunctionType": Builtin("FT", lambda a, b: ("FT", tuple(a), tuple(b)))})
             g["ROTATION_T"], g["FLOAT_T"] = "ROT", "F64"
